@@ -20,6 +20,10 @@ Vars1 == {RawV} \cup Named({"NoUnit", "Length", "Time", "Speed", "Stress"}) \cup
          \cup {V("qt", Area), V("qt", SqrtLength), V("qt", Toughness)}
          \cup (IF Thorough THEN Named({"Frequency", "Force", "Energy", "Acceleration", "Density", "Temperature", "InvLength", "StressRate"})
                                 \cup {V("qt", UPow(L, 3, 2)), V("qt", UPow(T, -1, 2)), V("qt", UPow(L, -2, 1))} ELSE {})
+\* the seven base units one by one and two units mixing all of them: products, quotients, powers and roots must treat every
+\* exponent alike (the other variables only use mass, length and time)
+AllSeven == {V("qt", NamedUnit(n)) : n \in {"Mass", "Ampere", "Temperature", "Candela", "Mole"}}
+            \cup {V("qt", U7(1, -1, 2, -2, 3, 1, 2)), V("qt", U7(0, 0, 0, 0, 0, 2, -1))}
 \* depth 2: a sub-lattice closed enough to produce coincidences (Length/Time = Speed, Speed*Time = Length, sqrt(Area) = Length ...)
 Vars2 == {RawV} \cup Named({"NoUnit", "Length", "Time", "Speed"})
          \cup (IF Thorough THEN {V("qt", SqrtLength), V("qt", Area)} \cup Named({"Frequency"}) ELSE {})
@@ -50,6 +54,11 @@ Una1 == {Case("una1", Una(op, x), <<a, Unused, Unused>>, << v, <<1, 1>>, <<1, 1>
            op \in {"neg", "abs", "sqrt"}, a \in Vars1, v \in {<<16, 1>>, <<-9, 1>>}}
         \cup {Case("una1", Pow(p[1], p[2], x), <<a, Unused, Unused>>, << v, <<1, 1>>, <<1, 1>> >>) :
                 p \in Exps1, a \in Vars1, v \in {<<16, 1>>, <<1, 4>>}}
+        \cup {Case("una1", Pow(p[1], p[2], x), <<a, Unused, Unused>>, << <<16, 1>>, <<1, 1>>, <<1, 1>> >>) : p \in {<<2, 1>>, <<1, 2>>, <<-1, 1>>, <<3, 2>>}, a \in AllSeven}
+        \cup {Case("una1", Una("sqrt", x), <<a, Unused, Unused>>, << <<16, 1>>, <<1, 1>>, <<1, 1>> >>) : a \in AllSeven}
+        \cup {Case("bin1", Bin(op, x, y), <<a, b, Unused>>, V0) : op \in {"*", "/", "+", "<"}, a \in AllSeven, b \in AllSeven}
+        \* a power of such a unit used with the unit it must have, and with a unit differing in one exponent only
+        \cup {Case("powout2", Bin("+", Pow(2, 1, x), y), <<a, b, Unused>>, V0) : a \in AllSeven, b \in {V("qt", UPow(c.u, 2, 1)) : c \in AllSeven} \cup {V("qt", NoUnit)}}
 \* views: qt_ref on the left of assignments, const_qt_ref anywhere on the right
 OpsV == {"+", "/", "<", "=", "+=", "*="} \cup (IF Thorough THEN {"*", "==", "-=", "/=", ">="} ELSE {})
 View1 == {Case("view1", Bin(op, x, y), <<AsView(a, qq[1]), AsView(b, qq[2]), Unused>>, V0) :
